@@ -1349,6 +1349,8 @@ def check_C13(rep):
     deep_array_probe_stage(rep, "c13", "C13", what, "iter,mutiter")
     # every enumeration flavour over collision groups (inline, external, full-collision lists) inside multi-slab trees
     map_full_stage(rep, "MapTrace_C13.cfg", what, "c13", probes="iter,mutiter,partial", scale=5)
+    # every enumeration flavour with the k-th ledger read failing: a call that reports success has yielded every element
+    exterr_stage(rep, "ExtErrTrace_C13.cfg", "c13-exterr")
     rep.exhaustive = False
 
 
@@ -1456,14 +1458,14 @@ def check_C18(rep):
     rep.exhaustive = False
 
 
-def exterr_stage(rep):
+def exterr_stage(rep, tcfg="ExtErrTrace_C18.cfg", stage="c18-exterr"):
     exe = vlib.build_harness()
-    out = os.path.join(vlib.scratch(), "c18-exterr-trace-0.ndjson")
+    out = os.path.join(vlib.scratch(), stage + "-trace-0.ndjson")
     p = subprocess.run([exe, "exterr-run", "-out", out, "-seed", str(rep.seed), "-tier", rep.tier], capture_output=True, text=True)
     if p.returncode != 0:
         raise Inconclusive("exterr-run failed: " + p.stderr[-2000:])
     summ = vlib.last_json(p.stdout)
-    results = vlib.validate_traces([out], "ExtErrTrace.tla", "ExtErrTrace_C18.cfg", "c18-exterr-tv")
+    results = vlib.validate_traces([out], "ExtErrTrace.tla", tcfg, stage + "-tv")
 
     def describe(res, rec, trace, why):
         sig = "exterr:%s:%s:%s" % (rec["op"], rec["inject"], why)
@@ -1474,13 +1476,13 @@ def exterr_stage(rep):
         p2 = subprocess.run([exe, "exterr-run", "-out", out + ".2", "-seed", str(payload["seed"]), "-tier", payload["tier"]], capture_output=True, text=True)
         if p2.returncode != 0:
             raise Inconclusive("exterr-run failed")
-        res = vlib.validate_traces([out + ".2"], payload["trace_module"], payload["trace_cfg"], "c18-exterr-tv2-%d" % random.randrange(1 << 20))
+        res = vlib.validate_traces([out + ".2"], payload["trace_module"], payload["trace_cfg"], stage + "-tv2-%d" % random.randrange(1 << 20))
         return any(not r["ok"] for r in res)
 
-    nrec = handle_results(rep, results, "ExtErrTrace.tla", "ExtErrTrace_C18.cfg", describe, confirm, "c18-exterr")
+    nrec = handle_results(rep, results, "ExtErrTrace.tla", tcfg, describe, confirm, stage)
     rep.traces += nrec
     rep.evaluations += nrec
-    rep.stages["c18-exterr"] = summ
+    rep.stages[stage] = summ
 
 
 def check_C16(rep):
